@@ -54,17 +54,11 @@ Definition arity_ok (b : builtin) (n : nat) : bool :=
   | ABetween lo hi => Nat.leb lo n && Nat.leb n hi
   end.
 
-(* built-ins without callbacks.  [fx] = false: the code as it is; true: after the proposed repairs
-   (fixes/C14-string-chars.diff, fixes/C14-range-overflow.diff) — on inputs of an open finding
-   class the implementation must agree with one of the two, nothing else *)
-Definition run_pure (fx : bool) (b : builtin) (args : list value) : outcome value :=
+(* built-ins without callbacks *)
+Definition run_pure (b : builtin) (args : list value) : outcome value :=
   match b with
-  | B_range => if fx then match bi_range args with Panic => Err | o => o end else bi_range args
-  | B_len => if fx then bi_len_chars args else bi_len args
-  | B_head => if fx then bi_head_chars args else bi_head args
-  | B_tail => if fx then bi_tail_chars args else bi_tail args
-  | B_slice => if fx then bi_slice_chars args else bi_slice args
-  | B_concat => bi_concat args
+  | B_range => bi_range args | B_len => bi_len args | B_head => bi_head args
+  | B_tail => bi_tail args | B_slice => bi_slice args | B_concat => bi_concat args
   | B_unique => bi_unique args | B_sort => bi_sort args | B_reverse => bi_reverse args
   | B_split => bi_split args | B_replace => bi_replace args | B_includes => bi_includes args
   | B_trim => bi_trim run_trim args | B_uppercase => bi_uppercase run_upper args
@@ -77,29 +71,29 @@ Definition run_pure (fx : bool) (b : builtin) (args : list value) : outcome valu
   end.
 
 (* ---------- the callbacks the generator uses ---------- *)
-Fixpoint mini_eval (fx : bool) (env : list (string * value)) (e : expr) : outcome value :=
+Fixpoint mini_eval (env : list (string * value)) (e : expr) : outcome value :=
   match e with
   | EId x => match rec_get env x with Some v => Ok v | None => Unmodelled end
   | ENum x => Ok (VNum x)
   | EStr s => Ok (VStr s)
   | EBool b => Ok (VBool b)
   | ENull => Ok VNull
-  | EAccess a i => do v <- mini_eval fx env a; do j <- mini_eval fx env i; access_value v j
-  | EDot a f => do v <- mini_eval fx env a; dot_access v f
-  | EUn Negate a => do v <- mini_eval fx env a; do x <- as_number v; Ok (VNum (nneg x))
+  | EAccess a i => do v <- mini_eval env a; do j <- mini_eval env i; access_value v j
+  | EDot a f => do v <- mini_eval env a; dot_access v f
+  | EUn Negate a => do v <- mini_eval env a; do x <- as_number v; Ok (VNum (nneg x))
   | ECall (EBuiltin b) [a] =>
-      do v <- mini_eval fx env a;
-      if arity_ok b 1 then run_pure fx b [v] else Err
+      do v <- mini_eval env a;
+      if arity_ok b 1 then run_pure b [v] else Err
   | _ => Unmodelled
   end.
 
-Definition run_call (fx : bool) (this_value func : value) (args : list value) (st : unit)
+Definition run_call (this_value func : value) (args : list value) (st : unit)
   : outcome value * unit :=
   match func with
-  | VBuiltin b => (if arity_ok b (length args) then run_pure fx b args else Err, st)
+  | VBuiltin b => (if arity_ok b (length args) then run_pure b args else Err, st)
   | VLam _ [AReq x] body _ =>
       match args with
-      | [a] => (mini_eval fx [(x, a)] body, st)
+      | [a] => (mini_eval [(x, a)] body, st)
       | _ => (Err, st)
       end
   | VLam _ _ _ _ => (Unmodelled, st)
@@ -107,15 +101,13 @@ Definition run_call (fx : bool) (this_value func : value) (args : list value) (s
   end.
 
 (* BuiltInFunction::call, by name *)
-Definition run_bi_gen (fx : bool) (b : builtin) (args : list value) : outcome value :=
+Definition run_bi (b : builtin) (args : list value) : outcome value :=
   match b with
-  | B_sort_by => fst (bi_sort_by unit (run_call fx) args tt)
-  | B_group_by => fst (bi_group_by unit (run_call fx) args tt)
-  | B_count_by => fst (bi_count_by unit (run_call fx) args tt)
-  | _ => run_pure fx b args
+  | B_sort_by => fst (bi_sort_by unit run_call args tt)
+  | B_group_by => fst (bi_group_by unit run_call args tt)
+  | B_count_by => fst (bi_count_by unit run_call args tt)
+  | _ => run_pure b args
   end.
-Definition run_bi := run_bi_gen false.
-Definition run_bi_fixed := run_bi_gen true.
 (* FunctionDef::BuiltIn(b).call(Null, args, …) at depth 0: arity check first *)
 Definition run_bi_checked (b : builtin) (args : list value) : outcome value :=
   if arity_ok b (length args) then run_bi b args else Err.
@@ -128,21 +120,3 @@ Definition show_out (o : outcome value) : string :=
   | Err => "ERR" | ErrDepth => "ERRDEPTH" | Panic => "PANIC" | Unmodelled => "UNMODELLED"
   end%string.
 
-(* sort / sort_by: the model answers Unmodelled exactly where std's sort is unspecified; there
-   the driver accepts any permutation of the input (and treats a panic as the open finding) *)
-Definition show_sort_input (l : list value) : string := ("ANYPERM:" ++ show_v (VList l))%string.
-
-
-(* marker appended to sort / sort_by results whose comparator is not a total preorder on the
-   input: std documents the order as unspecified there (for <= 20 elements std 1.89 happens to be
-   the insertion sort the model transcribes; the proposed merge sort of fixes/C14-sort-panic.diff
-   returns another permutation), so the driver accepts the model's answer or, while the finding is
-   open, any permutation *)
-Definition keys_comparable (func : value) (l : list value) : bool :=
-  if negb (is_function func) then true
-  else match mapM (fun x => fst (run_call false func func [x] tt)) l with
-       | Ok ks => mutually_comparable ks
-       | _ => false
-       end.
-Definition mark (comparable : bool) (s : string) : string :=
-  if comparable then s else (s ++ "#INCOMPARABLE")%string.
